@@ -99,13 +99,20 @@ def monitor_cases(rng, tier, stats):
             # which the rank grows by the kick only and the residual falls slowly — it must still run until the tolerance is met
             d, N, mode, tol, heavy = 4, [6, 10, 10, 6], {4: "truediv", 10: "fn", 16: "rtruediv"}[c], 1e-12, True
         box = {}
-        label = "%s/d%d%s" % (mode, d, "/high-rank" if heavy else "")
+        # complex operands (complex numerator; the positive divisor merely STORED as complex): the projections of the numerator and of the
+        # operator must use the same (unconjugated) bilinear pairing
+        cplx = (c % 6 == 1) and not heavy
+        label = "%s/d%d%s%s" % (mode, d, "/high-rank" if heavy else "", "/c128" if cplx else "")
 
-        def impl(N=N, mode=mode, tol=tol, seed=seed, box=box, d=d, c=c, heavy=heavy):
+        def impl(N=N, mode=mode, tol=tol, seed=seed, box=box, d=d, c=c, heavy=heavy, cplx=cplx):
             tn.manual_seed(seed); np.random.seed(seed % (2 ** 32))
             z = torchtt.randn(N, [1] + [3 if heavy else rng.randint(1, 3)] * (d - 1) + [1])
             y = (z * z + 1.0).round(1e-13)
             x = torchtt.randn(N, [1] + [2 if heavy else rng.randint(1, 4)] * (d - 1) + [1])
+            if cplx:
+                x2 = torchtt.randn(N, [1] + [rng.randint(1, 2)] * (d - 1) + [1])
+                x = torchtt.TT([cc.to(tn.complex128) for cc in x.cores]) + torchtt.TT([cc.to(tn.complex128) for cc in x2.cores]) * 1j
+                y = torchtt.TT([cc.to(tn.complex128) for cc in y.cores])
             if mode == "truediv":
                 q = x / y; num = x
             elif mode == "rtruediv":
@@ -115,13 +122,15 @@ def monitor_cases(rng, tier, stats):
                 if c % 2 == 0:
                     sv, form = [0.1, -7.3, 1.0 / 3.0][(c // 14) % 3], "py"        # deterministic member: a python float that float32 cannot hold
                 s = sv if form == "py" else np.float64(sv) if form == "np" else tn.tensor(float(sv), dtype=tn.float64) if form == "t0" else tn.tensor([float(sv)], dtype=tn.float64)
-                q = s / y; num = torchtt.ones(N) * float(sv)
+                q = s / y; num = torchtt.ones(N, dtype=tn.complex128 if cplx else tn.float64) * float(sv)
             else:
                 kw = {"eps": tol, "nswp": 50}
                 if mode == "fn-prec":
                     kw["preconditioner"] = "c"
                 if mode == "fn-guess":
                     kw["starting_tensor"] = torchtt.randn(N, [1] + [2] * (d - 1) + [1])
+                    if cplx:
+                        kw["starting_tensor"] = torchtt.TT([cc.to(tn.complex128) for cc in kw["starting_tensor"].cores])
                 num = x
                 if mode == "fn-guess-self":
                     # the numerator itself as warm start (natural when y is close to 1): operands and guess may be the same object
